@@ -60,6 +60,12 @@ def svc_args(idx, sn, variant):
     idtxt = IDS[idx].upper().encode() if sn % 2 == 0 else IDS[idx].encode()
     pairs = [(b"c#", b"%d" % (sn + 1)), (b"id" if (sn % 3 or variant == "linklocal") else b"ID", idtxt), (b"md", b"unit"), (b"s#", b"%d" % sn),
              (b"ci", b"5"), (b"sf", b"0")]
+    if sn % 4 == 2:
+        # bytes that are not UTF-8 in fields validity does not depend on: a Latin-1 model name, an unknown binary attribute
+        pairs[2] = (b"md", b"Caf\xe9 Lamp")
+        pairs += [(b"n\xf6te", b"\xff\xfe\x00")]
+    elif sn % 4 == 0:
+        pairs[2] = (b"md", "Lampe \u00e9".encode()[:-1])      # a UTF-8 value cut in the middle of a character
     if sn % 2 == 1:
         # valueless DNS-SD attributes (bare key, no '='): they count as absent, the record stays valid
         pairs += [(b"ff", None), (b"sh", None)] + ([(b"pv", None)] if sn % 4 == 3 else [(b"md2", None)])
@@ -1211,6 +1217,35 @@ def gen_psvc(tier, r):
                 cases.append(("valueless-" + tag, (NAME, TY, GOOD, 1234, txt_of(full)), e))
                 cases.append(("valueless-" + tag, (NAME, TY, GOOD, 1234, txt_of([(b"id", b"aa:bb"), (case_variants(k, mode), val)])),
                               None))
+    # bytes that are not valid UTF-8 in values (and keys) the validity of a record does not depend on: the record is
+    # VALID, text fields are shown with U+FFFD for the undecodable bytes (reference: bytes.decode("utf-8", "replace"))
+    bad_vals = [b"Caf\xe9 Lamp", b"\xff", b"\xc3", "Lampe \u00e9".encode()[:-1], b"\xe2\x82", b"ok\x80\xbf", b"\xf0\x9f\x98",
+                b"\xed\xa0\x80", b"\xc0\xaf", "K\u00fcche \u2713".encode(), b"\xfe\xfe\xff\xff"]
+    for bv in bad_vals:
+        rep = bv.decode("utf-8", "replace").encode("utf-8")
+        for mode in "lu":
+            for where in ("md", "pv", "sh", "extra-key", "extra-val", "both"):
+                f2 = dict(base)
+                extra = []
+                if where in ("md", "both"):
+                    f2["md"] = bv
+                if where in ("pv", "both"):
+                    f2["pv"] = bv
+                if where == "sh":
+                    extra = [(b"sh", bv)]
+                elif where == "extra-key":
+                    extra = [(b"x" + bv[:6], b"1")]
+                elif where == "extra-val":
+                    extra = [(b"note", bv)]
+                vals2 = {b"c#": b"%d" % f2["cn"], b"id": f2["id"], b"md": f2["md"], b"s#": b"%d" % f2["sn"], b"ci": b"%d" % f2["ci"],
+                         b"sf": b"%d" % f2["sf"], b"ff": b"%d" % f2["ff"], b"pv": f2["pv"]}
+                txt = txt_of([(case_variants(k, mode), vals2[k]) for k in KEYS] + extra)
+                e = expect(f2, GOOD)
+                if where in ("md", "both"):
+                    e["md"] = rep
+                if where in ("pv", "both"):
+                    e["pv"] = rep
+                cases.append(("nonutf8-" + where, (NAME, TY, GOOD, 1234, txt), e))
     for k1, k2 in itertools.combinations([x for x in allkeys if x != b"id"], 2):
         full = [(x, None if x in (k1, k2) else vals[x]) for x in allkeys]
         cases.append(("valueless-bare", (NAME, TY, GOOD, 1234, txt_of(full)), expect(base, GOOD, (k1, k2))))
